@@ -120,6 +120,22 @@ func RuleK10Only(r *Report, p *Program, which map[string]bool) {
 	}
 }
 
+// K10c: every BCD date/time decoder validates the calendar with the layout its encoder formats with.
+func RuleK10c(r *Report, c *Codec) {
+	r.Rule("K10c", "a BCD date/time decoder parses the digits with exactly the time layout its encoder formats with (calendar validation by package time, same component order)", 4)
+	for _, kf := range c.Kinds {
+		if !strings.HasPrefix(kf.Sig, "bcd:") || strings.Contains(kf.Sig, "%") || kf.UnmarshalFn == nil {
+			continue
+		}
+		layout := strings.TrimPrefix(kf.Sig, "bcd:")
+		got := map[string]bool{}
+		collectCallConsts(kf.UnmarshalFn, "time.ParseInLocation", 0, got, 0, c.P)
+		collectCallConsts(kf.UnmarshalFn, "time.Parse", 0, got, 0, c.P)
+		r.Check(len(got) == 1 && got[layout], "K10c", kf.Name, c.P.Pos(kf.UnmarshalFn.Pos()), "parses with "+layout,
+			fmt.Sprintf("decoder parses with layouts {%s}, the encoder formats with %q: impossible dates are not rejected by package time / components may be permuted", keysOf(got), layout))
+	}
+}
+
 func ruleK10All(r *Report, p *Program) {
 	tp := p.SSAPkg("types")
 	for _, fn := range p.AllFuncs {
@@ -146,11 +162,18 @@ func ruleK10All(r *Report, p *Program) {
 					continue
 				}
 				for _, st := range findStructTerms(pa, "types.HHmm") {
-					h, m := project(st, "hours"), project(st, "minutes")
+					f0, f1 := "hours", "minutes"
+					if stt, ok := st.Typ.Underlying().(*types.Struct); ok && stt.NumFields() == 2 {
+						f0, f1 = stt.Field(0).Name(), stt.Field(1).Name()
+					}
+					h, m := project(st, f0), project(st, f1)
 					if h.IsConst() && m.IsConst() {
 						continue
 					}
 					n++
+					if !(strings.HasSuffix(h.String(), "[1])#0") && strings.HasSuffix(m.String(), "[2])#0")) {
+						bad = "the two components are not taken from capture groups 1 and 2 in that order: " + cut(h.String(), 40) + " / " + cut(m.String(), 40)
+					}
 					hr, mr := regionOrFull(pa, h), regionOrFull(pa, m)
 					if !hr.Intersect(complement(IntervalSet{{0, 24}})).Empty() {
 						bad = "hours may be " + hr.Intersect(complement(IntervalSet{{0, 24}})).String()
